@@ -69,6 +69,9 @@ def asArr : Any → List Any × Bool
 def asObj : Any → Obj × Bool
   | .obj kv => (kv, true)
   | _ => ([], false)
+/-- `x.(float64)` without comma-ok: Go panics when `x` holds another type; the translated functions reach it only for values a
+    preceding check has typed (this total version yields 0 there) -/
+def assertF64 (x : Any) : F64 := (asF64 x).1
 
 /-- `m[k]` on a `map[string]interface{}` (a decoded JSON object: the first binding of a key is the one kept here) -/
 def mapGet (m : Obj) (k : Str) : Any := match m.find? (fun p => p.1 == k) with | some p => p.2 | none => .nil
@@ -143,6 +146,8 @@ structure Inst where
   refreshGracePeriod : Duration
   /-- `t.extractClaimsFunc(token)`: claims of a token string, or an error -/
   extractClaimsFunc : Str → Obj × Err
+  /-- `extractClaims(token)` (the package-level helper: payload of a token string, no verification) -/
+  extractClaims : Str → Obj × Err
   /-- `parseJWT(token)` -/
   parseJWT : Str → JWT × Err
   issuerURL : Str
@@ -175,6 +180,25 @@ def forRange {α σ ρ : Type} (xs : List α) (s : σ) (f : α → σ → Ctl σ
     | .next s' => forRange rest s' f
     | .brk s' => .next s'
     | .ret r => .ret r
+
+/-! ## the state shared between requests: token cache, revocation list, limiter
+
+The translated `VerifyToken`, `RevokeToken` and their helpers take the state as an argument and return the new one; what the
+operations the code calls on it do is a parameter (`VOps`), so that the theorems hold for every implementation of the caches and
+the limiter that satisfies the hypotheses they state. -/
+structure VOps (σ : Type) where
+  /-- `t.tokenCache.Get(token)`: the cached claims and whether there was a (live) entry; a lookup may reorder or drop entries -/
+  tokenCacheGet : σ → Time → Str → (Obj × Bool) × σ
+  /-- `t.tokenCache.Set(token, claims, duration)` -/
+  tokenCacheSet : σ → Time → Str → Obj → Duration → σ
+  /-- `t.tokenCache.Delete(token)` -/
+  tokenCacheDelete : σ → Str → σ
+  /-- `t.tokenBlacklist.Get(key)` -/
+  blacklistGet : σ → Time → Str → (Any × Bool) × σ
+  /-- `t.tokenBlacklist.Set(key, value, duration)` -/
+  blacklistSet : σ → Time → Str → Any → Duration → σ
+  /-- `t.limiter.Allow()` -/
+  limiterAllow : σ → Time → Bool × σ
 
 /-- `for cond { body }`: runs at most `fuel` iterations; `none` when the fuel runs out (the theorems about a translated
     function with such a loop say for which fuel it does not, i.e. that the loop terminates) -/
